@@ -16,6 +16,9 @@ EdgeCount(e) == Cardinality({i \in 1..Len(e.pts) : Member(e.shape, e.pts[i]) = "
 
 (* bbox: e.box the four integers reported by the region; aligned extremes may round either way *)
 VBox(e) ==
+  IF "grow" \in DOMAIN e /\ e.grow = 1
+    THEN (IF GrownBox(e.shape, e.U) = e.box THEN "ok" ELSE "bbox:wrong_for_a_shape_poking_just_past_a_pixel_edge")
+  ELSE
   LET m == BoxOf(e.shape, e.U) IN
   IF m.box = e.box THEN "ok"
   ELSE IF m.aligned /\ ~e.exact /\ \A i \in 1..4 : Abs(m.box[i] - e.box[i]) <= 1 THEN "ok"
